@@ -77,5 +77,24 @@ def main():
              ('Permute changes TS', trb('Permute', 0, {**est, 'TS': U // 4 + 9}), 'TS'),
              ('MLE less likely than its start', trb('Permute', 0, dict(est), gain=-50), 'likelihood_below_start')]
     bad += _expect('Trace_Analysis', os.path.join(SPEC, 'woehleranalysis', 'Trace_Analysis.tla'), os.path.join(SPEC, 'woehleranalysis', 'Trace_Analysis.cfg'), cases)
+    # ---- Trace_Notch (a recorded walk of the real extended Neuber law)
+    from .drivers import c06
+    tw, _ = c06._walk(('EN', c06.MATERIALS[0], 2.0, c06.TOLS[1], [0.2, 0.5, 0.9]))
+    tw = {k: tw[k] for k in ('law', 'lgKp', 'tau', 'steps')}
+    def mod4(f):
+        t = copy.deepcopy(tw); f(t); return t
+    U = 1048576
+    cases = [('unmodified', tw, 'ok'),
+             ('stress moved above the load', mod4(lambda t: t['steps'][1].__setitem__('lgS', t['steps'][1]['lgL'] + 5000)), 'stress_above_load'),
+             ('stress below load / K_p', mod4(lambda t: t['steps'][0].__setitem__('lgS', t['steps'][0]['lgL'] - t['lgKp'] - 5000)), 'stress_below_load_over_Kp'),
+             ('stress for -L differs', mod4(lambda t: t['steps'][0].__setitem__('lgSneg', t['steps'][0]['lgS'] + 40)), 'not_odd_in_the_load'),
+             ('stress range not doubled', mod4(lambda t: t['steps'][2].__setitem__('lgD', t['steps'][2]['lgS'] + U - 30)), 'stress_range_is_not_the_Masing_doubled_primary_stress'),
+             ('residual 3x the tolerance', mod4(lambda t: t['steps'][1].__setitem__('resP', 3000)), 'primary_stress_is_not_a_root_of_the_defining_equation'),
+             ('strain not on the RO curve', mod4(lambda t: t['steps'][1].__setitem__('lgEps', t['steps'][1]['lgEpsRO'] + 9)), 'strain_is_not_the_Ramberg_Osgood_strain_of_the_stress'),
+             ('backward function off', mod4(lambda t: t['steps'][2].__setitem__('lgLb', t['steps'][2]['lgL'] + 40)), 'load_of_stress_is_not_the_load'),
+             ('Series input answers differently', mod4(lambda t: t['steps'][0]['forms'].__setitem__(-1, t['steps'][0]['lgS'] + 40)), 'scalar_array_and_Series_inputs_differ'),
+             ('second step repeats the first stress', mod4(lambda t: t['steps'][1].update({k: t['steps'][0][k] for k in ('lgS', 'lgSneg', 'lgD', 'forms', 'lgEps', 'lgEpsRO', 'lgDEps', 'lgDEpsRO')} | {'lgLb': 0, 'lgLbs': 0})),
+              ('stress_not_strictly_increasing_in_the_load', 'stress_below_load_over_Kp'))]
+    bad += _expect('Trace_Notch', c06.TRACE_TLA, c06.TRACE_CFG, cases)
     print('selftest:', 'all trace specifications reject what they must' if bad == 0 else '%d FAILURES' % bad)
     return 0 if bad == 0 else 1
